@@ -64,7 +64,16 @@ def gen_writer_session(rng, thorough=False, with_extra=True, version=None, fmt=N
             r = 0.5
         if r < 0.68:
             n = rng.choice([0, 0, 1, 2, 5, 17, 40])
-            ops.append(("P", lasio.rand_points(rng, h, n), True))
+            rec = lasio.rand_points(rng, h, n)
+            if n and rng.random() < 0.18:
+                # a scale-aware record whose scaling differs from the writer's: the writer re-expresses it on the fly
+                import numpy as np
+                small = lasio.rand_points(rng, h, n, pattern="small")
+                for kx in "XYZ":
+                    small.array[kx] = np.array([rng.randrange(-50000, 50000) for _ in range(n)], dtype=np.int32)
+                rec = laspy.ScaleAwarePointRecord(small.array, small.point_format, np.array(h.scales) * rng.choice([1.0, 2.0, 0.5]),
+                                                  np.array(h.offsets) + rng.choice([0.0, 1.0, -2.0]))
+            ops.append(("P", rec, True))
         elif r < 0.76:
             ops.append(("P", wrong_format_points(rng, h, rng.choice([0, 1, 3])), False))
         elif r < 0.9:
@@ -102,6 +111,15 @@ def run_writer_session(sess, stream=None):
             outs.append("err:" + common.exc_kind(ex))
         unchanged.append(before == bio.getvalue())
     return outs, bio.getvalue(), unchanged, bio
+
+
+def has_rescaled_chunk(sess):
+    import numpy as np
+    h = sess["header"]
+    for op in sess["ops"]:
+        if op[0] == "P" and hasattr(op[1], "scales") and len(op[1]) and (np.any(op[1].scales != h.scales) or np.any(op[1].offsets != h.offsets)):
+            return True
+    return False
 
 
 def writer_cmd(sess):
